@@ -957,7 +957,8 @@ package rewriter
 //@   ghost forall j: Int :: 0 <= j && j < len(exprs) && (isa(exprs[j], BasicLit) || isa(exprs[j], FuncLit)
 //@        || (isa(exprs[j], Ident) && !isa(objectOf(as(exprs[j], Ident)), types.Var))) ==> EffFree(exprs[j])
 //@   ghost forall j: Int :: 0 <= j && j < len(exprs) && isa(exprs[j], ParenExpr) && EffFree(as(exprs[j], ParenExpr).X) ==> EffFree(exprs[j])
-//@   ghost forall j: Int :: 0 <= j && j < len(exprs) && isa(exprs[j], SelectorExpr) && EffFree(as(exprs[j], SelectorExpr).X) ==> EffFree(exprs[j])
+//@   ghost forall j: Int :: 0 <= j && j < len(exprs) && isa(exprs[j], SelectorExpr) && !isa(objectOf(as(exprs[j], SelectorExpr).Sel), types.Var)
+//@        && EffFree(as(exprs[j], SelectorExpr).X) ==> EffFree(exprs[j])      -- pkg.Var (and x.field) is a variable as well
 //@   ghost forall j: Int :: 0 <= j && j < len(exprs) && isa(exprs[j], IndexExpr) && IsTypeExpr(as(exprs[j], IndexExpr).Index)
 //@        && EffFree(as(exprs[j], IndexExpr).X) ==> EffFree(exprs[j])
 //@   ghost forall j: Int :: 0 <= j && j < len(exprs) && isa(exprs[j], IndexListExpr) && EffFree(as(exprs[j], IndexListExpr).X) ==> EffFree(exprs[j])
